@@ -264,7 +264,19 @@ func (s *symCtx) decisionsOf(body ast.Node) []symDecision {
 					var lv []symLeaf
 					s.leavesOf(call, &lv)
 					if len(lv) > 0 {
-						out = append(out, symDecision{kind: "cut-set", leaves: lv, pos: call.Pos()})
+						// value-returning searches and counts over the same operand with the same function in one body
+						// form one decision: Count(text, "\n") + Count(text, "\r") - Count(text, "\r\n")
+						merged := false
+						for i := range out {
+							if out[i].kind == "cut-set" && len(out[i].leaves) > 0 && out[i].leaves[0].operand == lv[0].operand {
+								out[i].leaves = append(out[i].leaves, lv...)
+								merged = true
+								break
+							}
+						}
+						if !merged {
+							out = append(out, symDecision{kind: "cut-set", leaves: lv, pos: call.Pos()})
+						}
 					}
 				}
 				return true
